@@ -125,7 +125,7 @@ class Check:
     # ---- aggregation of symx stats dicts coming back from jobs
     def add(self, part, res):
         if 'harness_error' in res:
-            self.inconclusive.append(f'{part}: harness error in job {res.get("job")}: {res["harness_error"]}')
+            self.inconclusive.append(f'{part}: harness error: {res["harness_error"]} in job {str(res.get("job"))[:300]}')
             return
         agg = self.parts.setdefault(part, dict(jobs=0, paths=0, aborted=0, queries=0, solver_s=0.0, obligations=0,
                                                discharged=0, nontrivial=0, notes={}, wall=0.0))
@@ -140,7 +140,7 @@ class Check:
             if len(self.samples) < 12:
                 self.samples.append(s)
         if res.get('truncated'):
-            self.inconclusive.append(f'{part}: job {res.get("job")} truncated (path budget)')
+            self.inconclusive.append(f'{part}: truncated (path budget) in job {str(res.get("job"))[:300]}')
         for i in res.get('inconclusive') or []:
             self.inconclusive.append(f'{part}: {i}')
         for v in res.get('violations') or []:
